@@ -55,6 +55,11 @@ fn alpha(cfg: &Cfg) -> Vec<Op> {
         Op::new(Inert("\x1b[1 s".into())),
         Op::new(Inert("\x1b 7".into())),
         Op::new(Inert("\x1b#7".into())),
+        Op::new(Inert("\x1b[#{".into())),
+        Op::new(Inert("\x1b[#}".into())),
+        Op::new(Inert("\x1b[?25s".into())),
+        Op::new(Inert("\x1b[?25r".into())),
+        Op::new(Inert("\x1b[61\"p".into())),
     ];
     v.push(Op::resize(cfg.cols.max(2) - 1, cfg.rows.max(2) - 1));
     v.push(Op::resize(cfg.cols + 1, cfg.rows + 1));
@@ -111,6 +116,7 @@ fn alpha_core(cfg: &Cfg) -> Vec<Op> {
         c(DecRst(vec![1049])),
         c(DecSet(vec![1047])),
         c(DecRst(vec![1047])),
+        c(DecSet(vec![47])),
         c(Cup(Some(99), Some(99))),
         c(Cup(None, None)),
         t("a"),
